@@ -375,20 +375,18 @@ def wf_program(prog):
         if not all(wf_tok(t) for g in groups for t in g):
             return False
     return True
+LINE_BREAKS = set('\n\r') | EXOTIC_BREAKS
 def gap_kind(g):
-    """'ws' whitespace only (or empty), 'comment' whitespace and comments each closed by a line end, None invalid"""
+    """'ws' whitespace only (or empty), 'comment' whitespace and comments each closed by a line end (any of the
+    str.splitlines boundaries), 'tail-comment' the last comment is not closed, None something else"""
     i, n, kind = 0, len(g), 'ws'
     while i < n:
         c = g[i]
         if c.isspace():
-            if c in EXOTIC_BREAKS:
-                return None
             i += 1
         elif c == '%':
             kind = 'comment'
-            while i < n and g[i] not in '\n\r':
-                if g[i] in EXOTIC_BREAKS:
-                    return None
+            while i < n and g[i] not in LINE_BREAKS:
                 i += 1
             if i == n:
                 return 'tail-comment'
@@ -498,7 +496,10 @@ ASSUMPTIONS = ['letters and digits are ASCII (DESIGN.md 2.2): str.upper of a non
                'and the regex \\d and int() accept non-ASCII digits; such characters are outside the claimed domain',
                'integer literals have at most 4300 digits (CPython refuses longer ones with a ValueError; the model says Crash there, the theorems assume the bound)',
                'function bodies nest at most 150 deep (the recursion of parse_group is unguarded; CPython raises RecursionError between 500 and 1000 levels)']
-PARTIAL = []
+PARTIAL = ['parse_stream / parse_file agree with parse_string: no theorem; correspondence (fn 3, 4, 9) and the oracle only',
+           'error_names_line assumes that no string literal is left open at a line end (line feeds inside a string token are not counted by the scanner)',
+           'every malformed source is rejected: refuted (finding F21); proved in the form accepted_is_printed + arity_respected_partial + last_command_complete',
+           'non-ASCII letters/digits, integer literals beyond 4300 digits and nesting beyond 150 levels are outside the claimed domain']
 
 UNITS = ['READ', 'sort', 'EXECUTE', 'MACRO', 'foo', '{', '}', '#1', '"s"', "'q", ' ', '\n', '%c"\n']
 UNITS_X = ['"', '#', '#-', 'Function', '\r\n', '\t', "a%b", '#-07', '""', 'x#2']
@@ -566,7 +567,7 @@ def rand_gap(rng, need, exotic=0.05):
     elif r < 0.6:
         g = ''.join(rng.choice(WS if rng.random() < exotic * 4 else ' \t\n') for _ in range(rng.randint(1, 3)))
     elif r < 0.8:
-        g = rng.choice(['', ' ', '\t']) + rng.choice(COMMENTS) + rng.choice(['\n', '\n', '\r\n', '\r']) + rng.choice(['', '', ' ', '\n'])
+        g = rng.choice(['', ' ', '\t']) + rng.choice(COMMENTS) + rng.choice(['\n', '\n', '\r\n', '\r'] + (['\x0c', '\x85', '\u2028', '\x0b', '\x1c'] if rng.random() < exotic * 4 else [])) + rng.choice(['', '', ' ', '\n'])
     else:
         g = ''
     if g == '' and need:
